@@ -521,6 +521,34 @@ def run_C09(chk):
         for fb, tb in ((b'%Y-%m-%d %T %Ez', b'2016-12-31 12:00:61 +00:00'), (b'%Y-%m-%d %T', b'9223372036854775807-12-31 23:59:61'), (b'%Y-%m-%d %T', b'2016-12-31 23:59:61'),
                        (b'%Y-%m-%d %H:%M:%OS', b'2016-06-30 23:59:61'), (b'%D %T', b'12/31/16 23:59:61')):
             b.append('parse %s %s %s' % (zid, hx(fb), hx(tb))); m.append(('must-fail', None, False, 0, fb, tb))
+        # the ends of the civil range where the offset adjustment (`cs -= offset`, and the -1 of ':60') would leave it: the guard must
+        # make parse fail without forming the out-of-range value, whether or not an offset was parsed (seeded change C09O)
+        for fb, tb in ((b'%Y-%m-%d %H:%M:%S', b'9223372036854775807-12-31 23:59:60'), (b'%Y-%m-%dT%H:%M:%S', b'9223372036854775807-12-31T23:59:60'),
+                       (b'%H:%M:%S %d/%m/%Y', b'23:59:60 31/12/9223372036854775807'), (b'%Y-%m-%d %H:%M:%E*S', b'9223372036854775807-12-31 23:59:60.5'),
+                       (b'%Y-%m-%d %H:%M:%S %Ez', b'9223372036854775807-12-31 23:59:60 +00:00'), (b'%Y-%m-%d %H:%M:%S %Ez', b'9223372036854775807-12-31 23:59:59 -00:01'),
+                       (b'%Y-%m-%d %H:%M:%S %E*z', b'9223372036854775807-12-31 23:59:59 -00:00:01'), (b'%Y-%m-%d %H:%M:%S %Ez', b'9223372036854775807-12-31 00:00:00 -23:59'),
+                       (b'%Y-%m-%d %H:%M:%S %Ez', b'-9223372036854775808-01-01 00:00:00 +00:01'), (b'%Y-%m-%d %H:%M:%S %E*z', b'-9223372036854775808-01-01 00:00:00 +00:00:01'),
+                       (b'%Y-%m-%d %H:%M:%S %z', b'-9223372036854775808-01-01 23:58:59 +2359')):
+            b.append('parse %s %s %s' % (zid, hx(fb), hx(tb))); m.append(('must-fail', None, False, 0, fb, tb))
+        # 12-hour clock with %p and the O-modified (alternative digits) conversions in every position: only %I / %OI / %l set the
+        # 12-hour reading, and nothing but another hour conversion may cancel it (seeded change C09P)
+        for _ in range(per // 40):
+            f = list(C.valid_fields(rng, year=rng.randrange(1, 9999)))
+            if rng.random() < 0.5: f[3] = rng.choice([0, 11, 12, 13, 23])
+            hr = rng.choice(['%I', '%OI', '%l'])
+            mn = rng.choice(['%M', '%OM']); sc = rng.choice(['%S', '%OS', ''])
+            dt = rng.choice([('%Y-%m-%d', '%s-%02d-%02d'), ('%Y-%Om-%Od', '%s-%02d-%02d'), ('%Od.%Om.%Y', None), ('%Y-%m-%Oe', '%s-%02d-%2d')])
+            h12 = f[3] % 12 or 12
+            tm_f = hr + ':' + mn + (':' + sc if sc else ''); tm_t = ('%2d' if hr == '%l' else '%02d') % h12 + ':%02d' % f[4] + (':%02d' % f[5] if sc else '')
+            dt_t = (dt[1] % (year_str(f[0]), f[1], f[2])) if dt[1] else '%02d.%02d.%s' % (f[2], f[1], year_str(f[0]))
+            ap = 'PM' if f[3] >= 12 else 'AM'
+            order = rng.randrange(4)
+            if order == 0: fb, tb = '%s %s %%p' % (dt[0], tm_f), '%s %s %s' % (dt_t, tm_t, ap)
+            elif order == 1: fb, tb = '%%p %s %s' % (tm_f, dt[0]), '%s %s %s' % (ap, tm_t, dt_t)
+            elif order == 2: fb, tb = '%s %%p, %s' % (tm_f, dt[0]), '%s %s, %s' % (tm_t, ap, dt_t)
+            else: fb, tb = '%s %%p %s' % (dt[0], tm_f), '%s %s %s' % (dt_t, ap, tm_t)
+            if not sc: f[5] = 0
+            b.append('parse %s %s %s' % (zid, hx(fb.encode()), hx(tb.encode()))); m.append(('valid', tuple(f), False, 0, fb.encode(), tb.encode()))
         # %s together with a date that does not exist (finding F22)
         for fb, tb in ((b'%Y-%m-%d %s', b'2013-09-31 5'), (b'%s %Y-%m-%d', b'86400 2023-02-29'), (b'%H:%M %s', b'24:61 7')):
             b.append('parse %s %s %s' % (zid, hx(fb), hx(tb))); m.append(('must-fail-percent-s', None, False, 0, fb, tb))
@@ -589,7 +617,7 @@ def run_C09(chk):
                 want = 'ok %d 0' % x if I64MIN <= x <= I64MAX else 'fail'
             else:
                 fl = list(fields)
-                if not re.search(r'%(E(\*|\d+))?S', fmt_b.decode()): fl[5] = 0
+                if not re.search(r'%(O|E(\*|\d+))?S', fmt_b.decode()): fl[5] = 0
                 x = C.sec_num(tuple(fl))
                 if kind == 'leap': x += 1
                 if use_off:
@@ -628,7 +656,7 @@ def run_C09(chk):
     chk.cov['distinct_nontrivial'] = good
     chk.cov['rule'] = ('inputs built from chosen field values (random valid dates, civil seconds within 2 h of a transition of the zone so that skipped/repeated times occur) in five field layouts, with or without a UTC offset in five spellings; '
                        '30% with one field pushed just outside its range or a non-existent day (must fail), 15% with one character inserted/deleted/replaced or harmless whitespace, :60 seconds, %s and %Y at the int64 limits and beyond '
-                       '(must fail), unstructured random pairs; implementation (ASan+UBSan) vs model (strptime via the real C library) and vs the instant the fields denote computed by the independent zone oracle (pre reading); '
+                       '(must fail), the ends of the civil range with :60 / an offset that would leave it (must fail, no UB), 12-hour clock with %p and O-modified conversions in every order, unstructured random pairs; implementation (ASan+UBSan) vs model (strptime via the real C library) and vs the instant the fields denote computed by the independent zone oracle (pre reading); '
                        'non-trivial = inputs whose outcome matched the oracle')
     chk.assumptions.append('strptime is a parameter of the model; the comparer answers its queries with the C library of this host')
     chk.sample({'op': blocks[0][2][1][:200], 'model': mo[0][1], 'implementation': io[0][1]})
